@@ -161,6 +161,9 @@ MC_QUICK = {
                 UpdKinds={"bad", "put"}, UpdItems={"cert", "tc"}, BadKinds={"bad", "missing", "dir", "dangle"}, MaxUpd=1,
                 MaxOpens=2),
             ["Begin", "Hash1", "Load", "Install", "PutBad", "Put"], True),
+    # the files change during every one of several consecutive load attempts of ONE call (the retry loop has no bound)
+    "retry": (cfg(Socks={1, 2}, ConnProfiles={"f1"}, UpdKinds={"pair"}, UpdItems={"cert"}, MaxUpd=3, MaxOpens=2),
+              LOADER + ["PutPair"], True),
     # two calling threads and the mutex (design only: a single-threaded harness cannot replay it)
     "threads": (cfg(Socks={1, 2}, Threads={1, 2}, ConnProfiles={"fL", "v1"}, UpdKinds={"put", "flipL"}, MaxUpd=1, MaxOpens=2,
                     EmitPaths="none"),
@@ -186,6 +189,10 @@ MC_DEV = {
                          Dev={"ctx_meta_key"}, EmitPaths="none"), "FreshCE"),
     "aba_load": (cfg(Socks={1}, ConnProfiles={"fL"}, UpdKinds={"flipL"}, MaxUpd=2, MaxOpens=1, Dev={"aba_load"},
                      EmitPaths="none"), "NoMixCE"),
+    # vacuity guard: a bounded retry loop that installs what its last attempt read breaks Fresh for the NEXT call; the
+    # counterexample (three new leaf certificates with their keys, one inside each load attempt, then a second socket) is replayed on the library
+    "retry_bound": (cfg(Socks={1, 2}, ConnProfiles={"f1"}, UpdKinds={"pair"}, UpdItems={"cert"}, MaxUpd=3, MaxOpens=2,
+                        Dev={"retry_bound"}, EmitPaths="none"), "FreshCE"),
     "accept_env_frozen": (cfg(Socks={1, 2}, ServProfiles={"def"}, AccOverrides={"none"}, UpdKinds={"env"}, EnvSet={"d2"},
                               MaxEnv=1, MaxOpens=2, Dev={"accept_env_frozen"}, EmitPaths="none"), "FreshCE"),
 }
